@@ -177,6 +177,15 @@ func blocksWithoutCtx(fn *ssa.Function) string {
 				}
 			}
 		}
+		// a select one of whose arms receives from a channel parameter that is ctx.Done() at every call site
+		// (readyBeforeDone(ctx.Done(), ch)) is interruptible through that argument
+		if op.kind == "select" {
+			for _, a := range op.arms {
+				if !a.send && a.kind == "ctx-done" {
+					excepted = true
+				}
+			}
+		}
 		if !excepted {
 			why = "a blocking " + op.kind
 		}
@@ -257,6 +266,23 @@ func ruleCtxArmIn(c *Ctx, r *R, onlyRel string) {
 						}
 						r.ok(mine, name+"|ctx-delegated:"+fname(cal)+"#"+itoa(nd), call.Pos(), "the blocking helper "+funcShort(cal)+" must be given "+p.Name()+" (or a context derived from it): with any other context the wait cannot be interrupted when "+p.Name()+" ends")
 					}
+				}
+			}
+			// blocking delegated to a helper that is handed the Done() channel instead of the context
+			// (readyBeforeDone(ctx.Done(), ch)): the channel must be this function's own context's
+			if cal := staticCallee(&call.Call); cal != nil && c.inModule(cal) && cal.Parent() == nil && ctxParam(origin(cal)) == nil {
+				if di := doneParamIndex(origin(cal)); di >= 0 && di < len(call.Call.Args) {
+					nd++
+					mine := false
+					if dc, ok := resolveVal(call.Call.Args[di]).(*ssa.Call); ok && dc.Call.IsInvoke() && dc.Call.Method.Name() == "Done" {
+						mine = true
+						for _, o := range ctxOrigins(dc.Call.Value, map[ssa.Value]bool{}) {
+							if o != ssa.Value(p) && !derivedFromCtx(o, p, 0) {
+								mine = false
+							}
+						}
+					}
+					r.ok(mine, name+"|done-delegated:"+fname(cal)+"#"+itoa(nd), call.Pos(), "the blocking helper "+funcShort(cal)+" must be given "+p.Name()+".Done(): with any other channel the wait cannot be interrupted when "+p.Name()+" ends")
 				}
 			}
 			if cal := staticCallee(&call.Call); cal != nil && c.inModule(cal) && cal.Parent() == nil {
@@ -923,4 +949,30 @@ func tryRecvHelper(cal *ssa.Function) (int, bool) {
 		}
 	})
 	return ci, good && sawTrue
+}
+
+// doneParamIndex: h blocks in a select one arm of which receives from a channel parameter that every call site fills with a
+// context's Done(); the index of that parameter, or -1.
+func doneParamIndex(h *ssa.Function) int {
+	if h.Blocks == nil {
+		return -1
+	}
+	for _, op := range chanOpsOf(h) {
+		if op.kind != "select" || !op.blocking {
+			continue
+		}
+		for _, a := range op.arms {
+			if a.send || a.kind != "ctx-done" {
+				continue
+			}
+			if p, ok := a.ch.(*ssa.Parameter); ok {
+				for i, q := range h.Params {
+					if q == p {
+						return i
+					}
+				}
+			}
+		}
+	}
+	return -1
 }
